@@ -12,7 +12,7 @@ KA(k, a) == <<k, a>>
 Pairs ==
   { KA(OctKey(32, "a", NONE, NONE), "HS256"), KA(OctKey(64, "a", NONE, NONE), "HS512"),
     KA(AsymKey("rsa2048a", 0, NONE, NONE), "RS256"), KA(AsymKey("rsa2048a", 0, NONE, NONE), "PS256"),
-    KA(AsymKey("rsa2048a", 0, "PS384", NONE), "PS384"),
+    KA(AsymKey("rsa2048a", 0, "PS384", NONE), "PS384"), KA(AsymKey("rsa2052a", 0, NONE, NONE), "RS256"),
     KA(AsymKey("p256a", 0, NONE, NONE), "ES256"), KA(AsymKey("p384a", 0, NONE, NONE), "ES384"),
     KA(AsymKey("p521a", 0, NONE, NONE), "ES512"), KA(AsymKey("k256a", 0, NONE, NONE), "ES256K"),
     KA(AsymKey("ed25519a", 0, NONE, NONE), "EdDSA"), KA(AsymKey("ed448a", 0, NONE, NONE), "EdDSA") }
@@ -27,7 +27,7 @@ Sibling(a) == CASE a = "HS256" -> "HS384" [] a = "HS384" -> "HS512" [] a = "HS51
                 [] a = "PS256" -> "RS256" [] a = "PS384" -> "PS256" [] a = "PS512" -> "PS384"
                 [] OTHER -> a
 OtherKey(k) == IF k.kty = "oct" THEN [k EXCEPT !.var = "b"]
-               ELSE CASE k.base \in {"rsa2048a", "rsa4096a"} -> AsymKey("rsa2048b", 0, NONE, NONE)
+               ELSE CASE k.base \in {"rsa2048a", "rsa4096a", "rsa2052a"} -> AsymKey("rsa2048b", 0, NONE, NONE)
                       [] k.base = "rsa3072a" -> AsymKey("rsa3072b", 0, NONE, NONE)
                       [] k.base = "p256a" -> AsymKey("p256b", 0, NONE, NONE)
                       [] k.base = "p384a" -> AsymKey("p384b", 0, NONE, NONE)
